@@ -578,7 +578,7 @@ def run(tier, replay=None):
         if h:
             chosen.setdefault(h, 'tlc-state-cover')
     n_cover = len(cover)
-    n_bad, n_rest = (20, 40) if quick else (500, 1500)
+    n_bad, n_rest = (20, 40) if quick else (500, 1000)
     rest = [h for h in bad_h if h not in chosen]
     for h in rnd.sample(rest, min(n_bad, len(rest))):
         chosen.setdefault(h, 'tlc-counterexample')
@@ -648,7 +648,7 @@ def run(tier, replay=None):
 
     # 5. conformance drift: the model's lines against the real ones, per poller and family
     cmp_n = cmp_ok = 0
-    variant_hits = {'pinned': 0, 'intended': 0}
+    variant_hits = {'pinned_only': 0, 'intended_only': 0, 'both': 0}
     for (meta, lines), steps in zip(traces[:n_model], per_world[:n_model]):
         if steps is None:
             continue
@@ -656,7 +656,7 @@ def run(tier, replay=None):
         for p in POLLERS:
             real = norm([l for st in steps[p] for l in st])
             cmp_n += 1
-            hit = None
+            hit = set()
             shown = None
             for name, mdl in (('pinned', model), ('intended', model_f)):
                 ml = []
@@ -672,10 +672,10 @@ def run(tier, replay=None):
                 shown = shown or mn
                 # the real run always ends with a settle; the model's history may be cut by the bound before one
                 if real[:len(mn)] == mn or (mn and not mn[-1][1] and real[:len(mn) - 1] == mn[:-1] and real[len(mn) - 1][0] == mn[-1][0]):
-                    hit = hit or name
+                    hit.add(name)
             if hit:
                 cmp_ok += 1
-                variant_hits[hit] += 1
+                variant_hits['both' if len(hit) == 2 else list(hit)[0] + '_only'] += 1
             else:
                 ctx.note_drift('%s/%s: real lines differ from the model\'s for history %s%s' % (
                     p, meta['family'], meta['hist'],
